@@ -13,7 +13,7 @@ from ..core import *
 from ..logic import *
 from ..report import Obl, Rule
 from .. import build
-from .voices import erase_keyoff_obligations, users_calls
+from .voices import erase_keyoff_obligations, users_calls, key_release_calls
 
 PROP = 'C05'
 RULES = [
@@ -151,7 +151,7 @@ def analyse(facts, tier):
         for x in walk(st['s']):
             ap = assign_parts(x)
             if ap and ap[2] == '&=' and mentions(ap[0], member_named('sustained')):
-                r = strip(ap[1])
+                r = strip(subst(strip(ap[1]), single_defs(ks.d)))       # the mask may have been named: `const uint32_t keepMask = ~sustain_type;`
                 if r.get('k') == 'UnaryOperator' and r['op'] == '~' and strip(r['e']).get('parm'):
                     ok_mask = True
                 # the hold bits of OTHER MIDI channels are not touched: the store sits under `midCh < 0 || loc.MidCh == midCh`
@@ -345,7 +345,8 @@ def analyse(facts, tier):
     rec(pn.tree)
     chan_loop = any(mentions(l['cond'], lambda y: short(callee_name(y)) == 'size' and mentions(y.get('obj'), member_named('m_midiChannels'))) for l in loops if l.get('cond'))
     key_loop = any(strip(l['cond']).get('k') == 'BinaryOperator' and strip(l['cond'])['op'] == '<' and const_of(strip(l['cond'])['r']) == 128 for l in loops if l.get('cond'))
-    calls_off = any(short(callee_name(x)) in ('noteOff', 'realTime_NoteOff') for b, j, st in pn.cfg.stmts() for x in calls_in(st['s']))
+    releases = list(key_release_calls(pn, pn.tree, en['Upd_Off']))
+    calls_off = bool(releases)
     # loop variable of the channel loop must be as wide as the bound
     wide = True
     for l in loops:
@@ -359,13 +360,7 @@ def analyse(facts, tier):
 
     # panic's note-off must take effect now: the deferred key-off of a short drum note (noteOff without forceNow) leaves the note
     # active after the panic, and every caller that rebuilds the chip-channel table afterwards (C04.R6) relies on no note surviving
-    forced = []
-    for b, j, st in pn.cfg.stmts():
-        for x in calls_in(st['s']):
-            if short(callee_name(x)) == 'noteOff' and len(x.get('a', [])) >= 3:
-                forced.append(const_of(x['a'][2]))
-            elif short(callee_name(x)) in ('noteOff', 'realTime_NoteOff'):
-                forced.append(0)
+    forced = [1 if f_ else 0 for x, keyargs, f_ in releases]
     okf = bool(forced) and all(v == 1 for v in forced)
     obls.append(Obl('C05.R5', pn.name, 'note-off is immediate', pn.loc, 'discharged' if okf else 'finding',
                     why='noteOff(channel, key, forceNow = true)' if okf else
@@ -397,13 +392,10 @@ def analyse(facts, tier):
                 continue
             iv = strip(c['l'])
             used = False
-            for x in walk(l.get('body')):
-                if ('callee' in x or 'callee_e' in x) and (short(callee_name(x)) in ('noteOff', 'realTime_NoteOff', 'rt_noteOff', 'rt_noteOffVel') or
-                                                          (x.get('callee_e') is not None and mentions(x['callee_e'], lambda y: y.get('k') == 'MemberExpr' and short(y['n']) in ('rt_noteOff', 'rt_noteOffVel')))):
-                    args = x.get('a', [])
-                    # (channel, key[, ...]) or (userdata, channel, key[, velocity]): the key is never the first argument
-                    if len(args) >= 2 and any(strip(a).get('k') == 'DeclRefExpr' and strip(a).get('id') == iv.get('id') for a in args[1:]) and not callee_name(x).startswith('OPN2::'):
-                        used = True
+            for x, keyargs, forced_ in key_release_calls(fn, l.get('body'), en['Upd_Off']):
+                # (channel, key[, ...]) or (userdata, channel, key[, velocity]): the key is never the first argument
+                if any(strip(a).get('k') == 'DeclRefExpr' and strip(a).get('id') == iv.get('id') for a in keyargs):
+                    used = True
             if not used:
                 continue
             n_all += 1
